@@ -43,7 +43,7 @@ PROP = dict(
                  "of headers/signature are not judged (whether the delimiter counts is unspecified)"],
     engines=[
         gt("roundtrip", "asserts", "TestVerifC20RoundTrip", dict(checks=2500, shards=2), dict(checks=40000, shards=6)),
-        gt("headers", "asserts", "TestVerifC20Headers", dict(checks=20000, shards=1), dict(checks=150000, shards=3)),
+        gt("headers", "asserts", "TestVerifC20Headers", dict(checks=10000, shards=2), dict(checks=150000, shards=3)),
         gt("bytes", "asserts", "TestVerifC20Bytes", dict(checks=5000, shards=4), dict(checks=100000, shards=6)),
         gt("limits", "asserts", "TestVerifC20Limits", dict(checks=500, shards=1), dict(checks=10000, shards=1)),
         gt("corpus", "asserts", "TestVerifC20Corpus", dict(shards=1), dict(shards=1), rapid=False),
